@@ -201,15 +201,19 @@ int run_walk(sg4::Engine& e)
       else
         tc = (int)(sm64(rng) % maxc);
     }
-    std::string enl, encl;
+    std::string enl, encl, entl;
     for (auto* x : en) {
       enl += (enl.empty() ? "" : ",") + std::to_string(x->get_pid());
       encl += (encl.empty() ? "" : ",") + std::to_string(x->get_pid()) + ":" +
               std::to_string(x->simcall_.observer_ ? x->simcall_.observer_->get_max_consider() : 1);
+      // kind of the pending transition of every enabled actor (what the commutation oracle chooses its pairs from)
+      std::string kind = x->simcall_.observer_ ? x->simcall_.observer_->to_string() : std::string("-");
+      kind             = kind.substr(0, kind.find('('));
+      entl += (entl.empty() ? "" : ",") + std::to_string(x->get_pid()) + ":" + nospace(kind);
     }
     std::string trs = a->simcall_.observer_ ? a->simcall_.observer_->to_string() : std::string("-");
-    emit("S %ld %a step n=%ld pid=%ld aid=%s tc=%d maxc=%d en=%s enc=%s tr=%s", SEQ++, now(), step, a->get_pid(),
-         aid_of(a->get_ciface()).c_str(), tc, maxc, enl.c_str(), encl.c_str(), nospace(trs).c_str());
+    emit("S %ld %a step n=%ld pid=%ld aid=%s tc=%d maxc=%d en=%s enc=%s ent=%s tr=%s", SEQ++, now(), step, a->get_pid(),
+         aid_of(a->get_ciface()).c_str(), tc, maxc, enl.c_str(), encl.c_str(), entl.c_str(), nospace(trs).c_str());
     path += std::to_string(a->get_pid()) + "/" + std::to_string(tc) + ";";
     last_pid = a->get_pid();
     a->simcall_handle(tc);
